@@ -22,6 +22,7 @@ import (
 	"verif/internal/docgen"
 	"verif/internal/h"
 	"verif/internal/httpgen"
+	"verif/internal/jv"
 	"verif/internal/kinx"
 )
 
@@ -207,6 +208,13 @@ func check(c Case) (o h.Outcome) {
 func gen(t *rapid.T) Case {
 	cfg := docgen.Cfg{Unusual: true, MaxPaths: 3, SchemaDepth: 2, ReadWrite: true, Examples: rapid.Bool().Draw(t, "examples")}
 	raw := docgen.Conforming(t, cfg)
+	if rapid.IntRange(0, 15).Draw(t, "nocomponents") == 0 {
+		// a document without a components section whose operations name security schemes all the same
+		// (document validation does not look the names up)
+		raw = jv.Parse(`{"openapi":"3.0.3","info":{"title":"t","version":"1"},"security":[{"ghost":[]}],"paths":{"/n":{"get":{"responses":{"200":{"description":"d"}}},
+			"post":{"security":[{"ghost":["a"]},{"other":[]}],"requestBody":{"content":{"application/json":{"schema":{"type":"object"}}}},"responses":{"200":{"description":"d"}}}},
+			"/n/{id}":{"parameters":[{"name":"id","in":"path","required":true,"schema":{"type":"integer"}}],"put":{"security":[{}],"responses":{"204":{"description":"d"}}}}}}`).(map[string]any)
+	}
 	b, _ := json.Marshal(raw)
 	c := Case{Doc: b}
 	c.Router = rapid.SampledFrom([]string{"gorillamux", "legacy"}).Draw(t, "router")
